@@ -20,7 +20,9 @@ def run(tier, seed):
         rp = [dict(name='C02_env', progs=C.fam(C.ALL), plans=[[]], alphabet=alpha, k=2),
               dict(name='C02_reentrant', progs=C.fam(['P03', 'P05']), plans=kill_plans, alphabet=alpha, k=1),
               dict(name='C02_downgrade', progs=down, plans=[[]], alphabet=alpha, k=2),
-              dict(name='C02_listener_raises', progs=C.fam(['P02', 'P03', 'P08']), plans=lfaults, alphabet=['kill', 'pause', 'play'], k=1)]
+              dict(name='C02_listener_raises', progs=C.fam(['P02', 'P03', 'P08']), plans=lfaults, alphabet=['kill', 'pause', 'play'], k=1),
+              # conformance only: close() by the user is outside the property's quantifier, but it is modelled
+              dict(name='C02_user_close', progs=C.fam(['P01', 'P03', 'P04']), plans=[[]], alphabet=['close', 'kill', 'pause', 'play'], k=2)]
     else:
         mc = [dict(name='C02_env', progs=C.fam(C.ALL), plans=[[]], alphabet=alpha, k=4, invariants=INV),
               dict(name='C02_reentrant', progs=C.fam(C.ALL), plans=kill_plans, alphabet=alpha, k=2, invariants=INV),
@@ -28,7 +30,8 @@ def run(tier, seed):
         rp = [dict(name='C02_env', progs=C.fam(C.ALL), plans=[[]], alphabet=alpha, k=3),
               dict(name='C02_reentrant', progs=C.fam(C.SMALL), plans=kill_plans, alphabet=alpha, k=1),
               dict(name='C02_downgrade', progs=down, plans=[[]], alphabet=alpha, k=3),
-              dict(name='C02_listener_raises', progs=C.fam(C.ALL), plans=lfaults, alphabet=['kill', 'pause', 'play', 'resume'], k=2)]
+              dict(name='C02_listener_raises', progs=C.fam(C.ALL), plans=lfaults, alphabet=['kill', 'pause', 'play', 'resume'], k=2),
+              dict(name='C02_user_close', progs=C.fam(C.ALL), plans=[[]], alphabet=['close', 'kill', 'pause', 'play', 'resume', 'fail'], k=3)]
     return core_check.run_check(
         PID, tier, seed, mc, rp,
         level_text='TLC exhaustive + replay of every behaviour of the dumped state graphs into the real Process',
